@@ -270,6 +270,39 @@ def all_triples():
     return out
 
 
+def fold_cases():
+    """small exhaustive family aimed at static_eval: every foldable operator on literal operands"""
+    I = lambda n: ("lit", "int", n)
+    Fl = lambda n, k: ("lit", "float", (n, k))
+    B = lambda b: ("lit", "bool", b)
+    N = ("lit", "null", None)
+    a, b, c = ("col", 0), ("col", 1), ("col", 2)
+    out = []
+    for x in (I(3), I(0), Fl(5, 1), a):
+        out += [("un", "Neg", x), ("un", "Pos", x), ("un", "Neg", ("un", "Neg", x)), ("bin", "Add", ("un", "Neg", x), b)]
+    for x in (B(True), B(False), a):
+        out += [("un", "Not", x), ("un", "Not", ("un", "Not", x))]
+    pairs = [(I(3), I(3)), (I(3), I(5)), (Fl(5, 1), Fl(5, 1)), (Fl(1, 1), Fl(5, 1)), (B(True), B(True)), (B(True), B(False)),
+             (N, N), (I(3), Fl(5, 1)), (N, I(3)), (I(3), N), (a, N), (N, a), (I(2), Fl(4, 1))]
+    for l, r in pairs:
+        for op in ("Eq", "Ne"):
+            out.append(("bin", op, l, r))
+            out.append(("bin", "And", ("bin", op, l, r), ("bin", "Gt", a, I(0))))
+    for x in (B(True), B(False)):
+        for y in (B(True), B(False)):
+            out += [("bin", "And", x, y), ("bin", "Or", x, y), ("bin", "Or", ("bin", "And", x, y), ("bin", "Lt", a, b))]
+        out += [("bin", "And", x, a), ("bin", "Or", a, x)]
+    out += [("bin", "Coalesce", N, a), ("bin", "Coalesce", N, I(3)), ("bin", "Coalesce", I(3), N), ("bin", "Coalesce", a, N),
+            ("bin", "Coalesce", N, ("bin", "Coalesce", N, a)), ("bin", "Add", ("bin", "Coalesce", N, a), I(1))]
+    out += [("case", [(B(True), a)]), ("case", [(B(False), a)]), ("case", [(B(False), a), (B(True), b)]),
+            ("case", [(("bin", "Gt", a, I(0)), b), (B(False), c), (B(True), I(1)), (b, I(2))]),
+            ("case", [(("bin", "Eq", I(1), I(1)), a), (B(True), b)]), ("case", [(("bin", "Ne", I(1), I(1)), a)]),
+            ("bin", "Add", ("case", [(B(False), a), (B(True), b)]), I(1))]
+    out += [("in", I(3), I(1), I(5)), ("in", a, N, I(5)), ("in", a, I(1), N), ("in", a, ("un", "Neg", I(2)), I(5)),
+            ("in", a, None, I(5)), ("in", a, I(1), None)]
+    return out
+
+
 def rand_leaf(r, boolish=False):
     x = r.random()
     if x < 0.62:
